@@ -2,6 +2,7 @@ package sim
 
 import (
 	"fmt"
+	"net/url"
 
 	"github.com/bluenviron/mediacommon/v2/pkg/formats/fmp4"
 	"math/big"
@@ -21,6 +22,10 @@ type muxOrigin struct {
 	w    *muxWorld
 	tr   *simTransport
 	reqs int
+	// query parameters of the primary URL: the muxer repeats them in every URI it writes, so every request must
+	// carry them; one that does not is refused like a token-protected server would
+	needQuery url.Values
+	queryLost string
 }
 
 func (o *muxOrigin) serve(nr *netReq) *originResp {
@@ -28,6 +33,15 @@ func (o *muxOrigin) serve(nr *netReq) *originResp {
 	hr := &httpResp{hdr: http.Header{}}
 	o.reqs++
 	req := &http.Request{Method: "GET", URL: nr.req.URL, Header: nr.req.Header}
+	got := nr.req.URL.Query()
+	for k, v := range o.needQuery {
+		if len(got[k]) != 1 || got[k][0] != v[0] {
+			if o.queryLost == "" {
+				o.queryLost = nr.url
+			}
+			return &originResp{status: 403, body: []byte("forbidden"), done: true}
+		}
+	}
 	go func() {
 		o.w.m.Handle(&respWriter{hr}, req)
 		resp.status = hr.effStatus()
@@ -120,6 +134,11 @@ func runC09(r *Run, variants []string, mode string) {
 	useMediaPrimary := T.Chance(1, 4) && (cfg.vname == "mpegts" || len(cfg.tracks) == 1)
 	if useMediaPrimary {
 		primary = "http://mux.example/stream/" + guessStreamURIs(cfg)[0]
+	}
+	if T.Chance(1, 3) {
+		q := Pick(T, "token=s3cret", "a=1&b=x+y", "t=%C3%A9%2F")
+		primary += "?" + q
+		org.needQuery, _ = url.ParseQuery(q)
 	}
 	cw := newCliWorld(r, org, primary, fate)
 	cw.net.tr = tr
@@ -240,6 +259,8 @@ func runC09(r *Run, variants []string, mode string) {
 				syncWait()
 				cw.net.pump()
 			}
+			r.SettleHolds()
+			syncWait()
 			if !cw.waitSeen {
 				r.Fail("close", "not-honoured", "after Close, Wait yielded nothing")
 			} else if gs := clientGoroutines(); len(gs) > 0 {
@@ -250,6 +271,12 @@ func runC09(r *Run, variants []string, mode string) {
 		oracleC11LL(r, cw)
 	} else {
 		oracleC09(r, cw, w, cfg, lt, useMediaPrimary, endOfWrites)
+	}
+	if mode != "c13" && org.queryLost != "" && !r.Failed() {
+		r.Fail("request", "query-lost", "the primary URL carries the query %q, which the muxer repeats in every URI it writes, but the client requested %s", org.needQuery.Encode(), org.queryLost)
+	}
+	if org.needQuery != nil {
+		r.Probe("primary-url-with-query")
 	}
 	r.Stats.NonTrivial = cw.onTracksN > 0
 	r.Cell("c09 %s lead=%s tracks=%d", cfg.vname, lt.kind, len(cfg.tracks))
@@ -325,6 +352,12 @@ func oracleC09(r *Run, cw *cliWorld, w *muxWorld, cfg *muxCfg, lt *trackSpec, me
 		if cw.waitErr.Error() == "astits: no more packets" && firstSegLen > 0 && (firstSegLen <= 4*188 || firstSegLacksTrack) {
 			r.Fail("unexpected-error", "mpegts-reader-cannot-initialise-on-first-segment", "the client cannot initialise its MPEG-TS reader on the first segment it downloads (%d bytes; a declared track without data in it: %v): %s",
 				firstSegLen, firstSegLacksTrack, describeErr(cw.waitErr))
+			return
+		}
+		// a non-leading unit written with a timestamp far ahead of the leading units written around it is input that
+		// is not synchronised; the client's 10 s limit between decode time and real time then ends playback by design
+		if skew := maxInputSkew(w.script); cw.waitErr.Error() == "difference between DTS and RTC is too big" && skew > 9*time.Second {
+			r.Probe("input-skew-beyond-sync-limit")
 			return
 		}
 		// status 500 at the very beginning is what a muxer without content would never send; anything else is unexpected
@@ -515,6 +548,22 @@ func oracleC09(r *Run, cw *cliWorld, w *muxWorld, cfg *muxCfg, lt *trackSpec, me
 }
 
 func ct(t *gohlslib.Track) int { return t.ClockRate }
+
+// maxInputSkew is the largest distance by which a non-leading call's media time runs ahead of the latest leading
+// call written before it.
+func maxInputSkew(script []*writeCall) time.Duration {
+	var maxSkew time.Duration
+	lead := time.Duration(-1)
+	for _, cl := range script {
+		t := time.Duration(float64(cl.pts) / float64(cl.track.clock) * float64(time.Second))
+		if cl.track.leading {
+			lead = t
+		} else if lead >= 0 && t-lead > maxSkew {
+			maxSkew = t - lead
+		}
+	}
+	return maxSkew
+}
 
 func errKey(msg string) string {
 	msg = strings.ToLower(msg)
